@@ -130,7 +130,7 @@ pub fn level_cases() -> Vec<(Method, Option<i32>)> {
 }
 
 pub fn run(ctx: &mut Ctx) {
-    ctx.rule("programs: proptest-generated legal writer programs (0..12 entries: files of every method/level, dirs, symlinks, comments; names ASCII/UTF-8/NUL/backslash/empty/duplicates; any valid timestamp; any permission bits; large_file) run twice (finish and drop), read back through ZipArchive with varied caller buffers; non-trivial = at least one entry with non-empty content; distinct by hash of the program. many: programs with hundreds..thousands (thorough: >65535) of entries. levels: every documented (method, level) pair x 3 contents. boundary: names/comments at 16-bit length boundaries.");
+    ctx.rule("programs: proptest-generated legal writer programs (0..12 entries: files of every method/level, dirs, symlinks, comments; names ASCII/UTF-8/NUL/backslash/empty/duplicates; any valid timestamp; any permission bits; large_file) run twice (finish and drop), read back through ZipArchive with varied caller buffers; non-trivial = at least one entry with non-empty content; distinct by hash of the program. many: programs with hundreds..thousands (thorough: >65535) of entries. levels: every documented (method, level) pair x 3 contents. boundary: names/comments at 16-bit length boundaries. comment_sweep: every archive-comment length 0..=65535 (exhaustive over the length), every 16th with a name of the same length.");
     ctx.assume("flate2/bzip2/zstd codecs are trusted; CRC-32 of the model content is computed by an independent table-driven implementation");
     ctx.assume("names and comments never embed ZIP end-record signatures (format-inherent ambiguity, excluded by construction)");
 
@@ -279,6 +279,34 @@ pub fn run(ctx: &mut Ctx) {
             match check_program(&Program { ops }, 0) {
                 Ok(_) => Verdict::Pass,
                 Err(e) => Verdict::Fail(format!("name of {} bytes, comment of {} bytes: {}", b.name_len, b.comment_len, trunc(&e))),
+            }
+        },
+    );
+
+    // EVERY archive-comment length 0..=65535 (one small entry in front): the comment is the only
+    // variable-length part behind the end record, and the reader finds the end record by searching
+    // backwards over it - a sweep leaves no magic length untried. Every 16th case also carries a
+    // second entry whose name has the same length (all name lengths that are multiples of 16, plus 65535).
+    #[derive(Clone, Debug, Serialize, Deserialize, Hash)]
+    struct CLen {
+        comment_len: u32,
+        long_name: bool,
+    }
+    ctx.enumerate::<CLen>(
+        "comment_sweep",
+        65536,
+        &|i| CLen { comment_len: i as u32, long_name: i % 16 == 0 || i == 65535 },
+        &|c: &CLen, info: &mut Info| {
+            info.nontrivial = c.comment_len > 0;
+            info.label_if(c.long_name, "name-length==comment-length");
+            let mut ops = vec![Op::File { name: "first".into(), opts: Opts::plain(if c.comment_len % 2 == 0 { Method::Deflated } else { Method::Stored }), chunks: vec![Content::Text { seed: c.comment_len as u64, len: 50 }] }];
+            if c.long_name {
+                ops.push(Op::File { name: "n".repeat(c.comment_len as usize), opts: Opts::plain(Method::Stored), chunks: vec![Content::Bytes(b"x".to_vec())] });
+            }
+            ops.push(Op::Comment(gen::sanitize_comment(Content::Text { seed: 77 + c.comment_len as u64, len: c.comment_len }.expand())));
+            match check_program(&Program { ops }, 0) {
+                Ok(_) => Verdict::Pass,
+                Err(e) => Verdict::Fail(format!("archive comment of {} bytes: {}", c.comment_len, trunc(&e))),
             }
         },
     );
